@@ -202,6 +202,16 @@ func TestVX_C10(t *testing.T) {
 	rep := mc.NewReport("C10", "controller/stall")
 	defer rep.Write()
 	defer vxCleanup()
+	var rcmd struct {
+		Cmd *vxC10CmdCase `json:"cmd"`
+	}
+	if mc.ReplayCase(&rcmd) && rcmd.Cmd != nil {
+		if _, _, _, f := vxC10RunCmd(*rcmd.Cmd); f[0] != "" {
+			rep.Violate(mc.Violation{Signature: f[0], Detail: f[1] + "\ncase: " + rcmd.Cmd.String(), Replay: rcmd})
+		}
+		rep.Evaluations = 1
+		return
+	}
 	var rc vxC10Case
 	if mc.ReplayCase(&rc) {
 		_, f := vxC10Run(rc)
@@ -256,6 +266,45 @@ func TestVX_C10(t *testing.T) {
 					}
 				}
 			}
+		}
+	}
+	// cmd fans (real scripts; a handful of tuples because every poll spawns processes)
+	var cmdCases []vxC10CmdCase
+	for _, th := range []int{4, 999} {
+		for _, w := range []int{1, 2} {
+			for _, r0 := range []int{0, 1200} {
+				cmdCases = append(cmdCases, vxC10CmdCase{Theta: th, R0: r0, Window: w})
+				if th == 4 {
+					cmdCases = append(cmdCases, vxC10CmdCase{Theta: th, R0: r0, Window: w, GetPwmFails: true}, vxC10CmdCase{Theta: th, R0: r0, Window: w, GetPwmNoise: true})
+				}
+			}
+		}
+	}
+	if !mc.Thorough() {
+		// the "never spins" cmd cases need ~255 raises each: thorough only
+		var keep []vxC10CmdCase
+		for _, c := range cmdCases {
+			if c.Theta != 999 {
+				keep = append(keep, c)
+			}
+		}
+		cmdCases = keep
+	}
+	for i, c := range cmdCases {
+		if !mc.Mine(i) {
+			continue
+		}
+		raises, first, outcome, f := vxC10RunCmd(c)
+		rep.Evaluations++
+		rep.Transitions += int64(raises)
+		if f[0] != "" {
+			rep.Violate(mc.Violation{Signature: f[0], Detail: f[1] + "\ncase: " + c.String(), Replay: map[string]any{"cmd": c}})
+			continue
+		}
+		rep.AddDistinct(1)
+		rep.Count("cmd outcome:"+outcome, 1)
+		if i == 1 {
+			rep.Sample(map[string]any{"case": c.String(), "outcome": outcome, "raises": raises, "polls_to_first_raise": first})
 		}
 	}
 	outcomes := map[string]int64{}
